@@ -112,6 +112,11 @@ def _construct(shape_name, how):
         elif how == 'mapping':
             d = cm.merge_counts(want)
             f = formulas.formula(dict(d))
+        elif how == 'iterator':
+            # any iterable of (count, fragment) pairs is accepted, one-shot iterators and generators included
+            def it(seq):
+                return ((c, it(fr) if isinstance(fr, list) else fr) for c, fr in seq)
+            f = formulas.formula(it(st))
         elif how == 'Formula':
             f = formulas.Formula(structure=formulas._immutable(st))
         check_formula(E, how, f, want)
@@ -231,7 +236,7 @@ def cases(tier):
     out = []
     shapes = ['pair', 'group', 'repeat_depth', 'three', 'same_charge_ions'] if not th else list(SHAPES)
     for sn in shapes:
-        for how in ('sequence', 'mapping', 'copy', 'Formula'):
+        for how in ('sequence', 'mapping', 'copy', 'Formula', 'iterator'):
             out.append(Case('construct[%s|%s]' % (sn, how), _construct(sn, how), max_paths=mp, timeout_ms=30000))
     out.append(Case('atoms_and_empty', _atom_case, max_paths=8))
     from .c01 import skeletons
